@@ -16,14 +16,21 @@ M_ST = ("MC_StunClient.tla", "MC_StunClient_st.cfg", ("SendRequest", "Recv", "On
 M_ST_REL = ("MC_StunClient.tla", "MC_StunClient_st_rel.cfg", ("SendRequest", "Recv", "OnTimeout"))
 M_LT = ("MC_CredLT.tla", "MC_CredLT.cfg", ("Send", "Next"))
 M_LT_RFC = ("MC_CredLT.tla", "MC_CredLT_rfc.cfg", ("Send", "Next"))
+def sched_model(rc, rm):
+    return ("MC_StunClient.tla", "MC_StunClient_sched_%d_%d.cfg" % (rc, rm), ("SendRequest", "Recv", "OnTimeout"))
+
+
+SCHED_QUICK = [sched_model(1, 1), sched_model(4, 1), sched_model(7, 16)]
+SCHED_THOROUGH = [sched_model(1, 5), sched_model(2, 2), sched_model(5, 4), sched_model(10, 32)]
+MODELS_THOROUGH_EXTRA = {"C06": SCHED_THOROUGH, "C11": SCHED_THOROUGH}
 MODELS = {
     "C03": [M_ST_REL, M_LT],
     "C05": [M_REL, M_UNREL, M_ST_REL],
-    "C06": [M_REL, M_UNREL],
+    "C06": [M_REL, M_UNREL] + SCHED_QUICK,
     "C07": [M_ST_REL, M_ST],
     "C08": [M_LT, M_LT_RFC],
     "C10": [M_ST_REL, M_REL],
-    "C11": [M_REL, M_UNREL],
+    "C11": [M_REL, M_UNREL] + SCHED_QUICK,
     "C12": [M_REL, M_UNREL],
     "C13": [M_ST_REL, M_LT],
     "C15": [M_UNREL],
@@ -156,7 +163,7 @@ def match_known(prop, obs, info):
 def design_models(prop, tier, wd):
     states = trans = 0
     info = []
-    for module, cfg, actions in MODELS[prop]:
+    for module, cfg, actions in MODELS[prop] + (MODELS_THOROUGH_EXTRA.get(prop, []) if tier == "thorough" else []):
         r = tlc_model(module, cfg, wd, workers=12, timeout=1500)
         if r["violated"]:
             raise ToolError("design model %s/%s violates %s - specification or monitor is wrong:\n%s"
